@@ -222,6 +222,22 @@ func $NC(a int) (res int) {
 	return
 }
 
+// embedded through an ALIAS that happens to be called like the API type: the field is named after the alias and keeps that name
+type $NIterAlias = $ITER{int}
+
+type $NABox struct {
+	$NIterAlias
+	n int
+}
+
+func $NE(a int) (res int) {
+	b := $NABox{$NIterAlias: $NG(a), n: 3}
+	for v := range $RANGE{b.$NIterAlias} {
+		res = res*2 + v + b.n
+	}
+	return
+}
+
 // the embedded iterator's methods are promoted: pull-style code through the struct, and the struct is an iterator itself
 type $NPuller interface {
 	MoveNext() bool
@@ -247,7 +263,7 @@ func $ND(a int) (res int) {
 		res += o.Current()
 	}
 	return
-}`, entries: []*Entry{callEntry("$NC", 1, nil), callEntry("$ND", 1, nil)}},
+}`, entries: []*Entry{callEntry("$NC", 1, nil), callEntry("$ND", 1, nil), callEntry("$NE", 1, nil)}},
 	// partial redeclarations whose re-used variable takes an untyped NON-constant value: comma-ok results, comparisons,
 	// non-constant shifts get their type from the variable they are assigned to
 	{name: "mixed-define-redeclared-typed-variable-with-untyped-nonconstant-value", decls: baseGen + `
